@@ -225,6 +225,8 @@ struct WireCase {
     c2s: Option<Enc>,
     /// encoding the server sends with (client accepts it)
     s2c: Option<Enc>,
+    /// the call is made through a clone of the configured client
+    via_clone: bool,
 }
 
 fn header_is(h: &HeaderMap, k: &str, v: &str) -> bool {
@@ -249,6 +251,9 @@ fn wire_body(c: &WireCase, ch: &Chooser) -> Outcome {
     }
     if let Some(e) = c.s2c {
         client = client.accept_compressed(tonic_enc(e));
+    }
+    if c.via_clone {
+        client = client.clone();
     }
     let r = spin_block_on(client_call(&mut client, c.call.shape, c.call.req_msgs.clone(), &c.call.req_md, true, ch, |_| {}), 200_000);
     if r.is_err() {
@@ -353,6 +358,8 @@ struct NetCase {
     /// 1 = a user layer fails with a Status (PERMISSION_DENIED), 2 = Server::timeout fires while a
     /// user layer is still holding the request (CANCELLED)
     middleware: u8,
+    /// content-type the bare client sends (any application/grpc[+subtype] is a gRPC request)
+    req_ct: &'static str,
 }
 
 /// A user layer that refuses (mode 1) or delays by an hour (mode 2) every request.
@@ -499,7 +506,7 @@ fn net_run(c: &NetCase, ch: &Chooser) -> NetSeen {
             let req = http::Request::builder()
                 .method("POST")
                 .uri(format!("http://c03.test:1{}", c.call.shape.path()))
-                .header("content-type", "application/grpc")
+                .header("content-type", c.req_ct)
                 .header("te", "trailers")
                 .body(http_body_util::Full::new(bytes::Bytes::from(body)))
                 .unwrap();
@@ -620,7 +627,7 @@ pub fn property(tier: Tier) -> Property {
             vec![[(None, None), (Some(Enc::Gzip), None), (None, Some(Enc::Zstd)), (Some(Enc::Deflate), Some(Enc::Gzip))][i % 4]]
         };
         for (c2s, s2c) in combos {
-            wcases.push(WireCase { call: call.clone(), c2s, s2c });
+            wcases.push(WireCase { call: call.clone(), c2s, s2c, via_clone: (i / 4) % 2 == 1 });
         }
     }
     // handler metadata that happens to carry a grpc-encoding entry (e.g. forwarded from an upstream
@@ -639,16 +646,16 @@ pub fn property(tier: Tier) -> Property {
                     exact_hint: false,
                 };
                 let call = CallCase { shape, req_msgs: vec![vec![1]], req_md: vec![], script, free_cuts: false, enc: None, fixed_chunks: false, repeat: false };
-                wcases.push(WireCase { call, c2s: None, s2c: Some(s2c) });
+                wcases.push(WireCase { call, c2s: None, s2c: Some(s2c), via_clone: false });
             }
         }
     }
     let b = Section::new(
         "l1-wire",
         Config { max_bound: 2, ..Default::default() },
-        "cases: every C02 call case (shape x request sequence x handler script) x compression configuration, plus handler metadata carrying its own grpc-encoding entry while response compression is negotiated; generated client -> capture adapter -> generated server; environment: message sources answer Pending (<= 2 deviations); oracle on the captured HTTP messages: POST, HTTP/2, path /fx.Echo/<Method>, content-type application/grpc, te: trailers, no request trailers; response 200 + application/grpc, exactly one grpc-status (in headers iff the body is empty, else in one trailers block that is last); both bodies parse with the independent decoder into the expected serialisations, compressed with the announced grpc-encoding exactly when flag = 1. Non-trivial = compression configured or an error status scripted.",
+        "cases: every C02 call case (shape x request sequence x handler script) x compression configuration (half of them through a clone of the configured client), plus handler metadata carrying its own grpc-encoding entry while response compression is negotiated; generated client -> capture adapter -> generated server; environment: message sources answer Pending (<= 2 deviations); oracle on the captured HTTP messages: POST, HTTP/2, path /fx.Echo/<Method>, content-type application/grpc, te: trailers, no request trailers; response 200 + application/grpc, exactly one grpc-status (in headers iff the body is empty, else in one trailers block that is last); both bodies parse with the independent decoder into the expected serialisations, compressed with the announced grpc-encoding exactly when flag = 1. Non-trivial = compression configured or an error status scripted.",
         wcases,
-        |c: &WireCase| format!("c2s={} s2c={} {}", enc_name(c.c2s), enc_name(c.s2c), describe(&c.call)),
+        |c: &WireCase| format!("c2s={} s2c={} via_clone={} {}", enc_name(c.c2s), enc_name(c.s2c), c.via_clone, describe(&c.call)),
         wire_body,
     )
     .mins(500, 10, 100);
@@ -662,22 +669,28 @@ pub fn property(tier: Tier) -> Property {
         }
         let chops: Vec<usize> = if tier == Tier::Thorough { vec![0, 2, 3] } else { vec![[0, 2, 3][i % 3]] };
         for chop in chops {
-            ncases.push(NetCase { call: call.clone(), judge_request: false, c2s: None, chop, middleware: 0 });
-            ncases.push(NetCase { call: call.clone(), judge_request: true, c2s: [None, Some(Enc::Gzip), Some(Enc::Zstd)][i % 3], chop, middleware: 0 });
+            ncases.push(NetCase { call: call.clone(), judge_request: false, c2s: None, chop, middleware: 0, req_ct: "application/grpc" });
+            ncases.push(NetCase { call: call.clone(), judge_request: true, c2s: [None, Some(Enc::Gzip), Some(Enc::Zstd)][i % 3], chop, middleware: 0, req_ct: "application/grpc" });
+        }
+    }
+    // (b') the bare client names a message subtype in its content-type
+    for call in call_cases(tier).into_iter().filter(|c| !c.free_cuts && !c.repeat && c.enc.is_none()).step_by(23) {
+        for req_ct in ["application/grpc+proto", "application/grpc+x-raw"] {
+            ncases.push(NetCase { call: call.clone(), judge_request: false, c2s: None, chop: 0, middleware: 0, req_ct });
         }
     }
     // (c) responses produced by the middleware stack, for every call shape
     for call in call_cases(tier).into_iter().filter(|c| !c.free_cuts && !c.repeat && c.script.end.is_none() && c.enc.is_none()).step_by(17) {
         for middleware in [1u8, 2] {
-            ncases.push(NetCase { call: call.clone(), judge_request: false, c2s: None, chop: 0, middleware });
+            ncases.push(NetCase { call: call.clone(), judge_request: false, c2s: None, chop: 0, middleware, req_ct: "application/grpc" });
         }
     }
     let c = Section::new(
         "transport-wire",
         Config { max_bound: 1, hang_secs: 60, ..Default::default() },
-        "cases: C02 call cases (quick: every third) x pipe fragmentation pattern, in virtual time over in-memory pipes, against NON-tonic peers: (a) the generated client over the real Channel/hyper/h2 stack talks to a bare hyper HTTP/2 server which records what really arrives: POST, HTTP/2, path, content-type application/grpc, te: trailers, no trailers, body = the request messages framed (compressed as announced); (b) a bare hyper HTTP/2 client sends a hand-built gRPC request to the real tonic Server and records status 200, content-type, exactly one grpc-status (in headers iff nothing else follows, else in the HTTP/2 trailers) and the framed response messages; (c) as (b), but the response comes from the server's middleware stack instead of the handler — a user layer failing with a Status, Server::timeout firing while a user layer holds the request — and must be the same kind of HTTP message (200, application/grpc, exactly one grpc-status, in the headers). Non-trivial = fragmenting pattern, compression or an error status.",
+        "cases: C02 call cases (quick: every third) x pipe fragmentation pattern, in virtual time over in-memory pipes, against NON-tonic peers: (a) the generated client over the real Channel/hyper/h2 stack talks to a bare hyper HTTP/2 server which records what really arrives: POST, HTTP/2, path, content-type application/grpc, te: trailers, no trailers, body = the request messages framed (compressed as announced); (b) a bare hyper HTTP/2 client sends a hand-built gRPC request (content-type application/grpc, and for a sample +proto / +x-raw) to the real tonic Server and records status 200, content-type, exactly one grpc-status (in headers iff nothing else follows, else in the HTTP/2 trailers) and the framed response messages; (c) as (b), but the response comes from the server's middleware stack instead of the handler — a user layer failing with a Status, Server::timeout firing while a user layer holds the request — and must be the same kind of HTTP message (200, application/grpc, exactly one grpc-status, in the headers). Non-trivial = fragmenting pattern, compression or an error status.",
         ncases,
-        |c: &NetCase| format!("judge_request={} c2s={} chop={} middleware={} {}", c.judge_request, enc_name(c.c2s), c.chop, c.middleware, describe(&c.call)),
+        |c: &NetCase| format!("judge_request={} c2s={} chop={} middleware={} req_ct={} {}", c.judge_request, enc_name(c.c2s), c.chop, c.middleware, c.req_ct, describe(&c.call)),
         net_body,
     )
     .mins(300, 10, 100);
